@@ -60,6 +60,43 @@ example : ([3] ++ [4])[0]? = some 3 ∧ 0 < 3 ∧
   refine ⟨by decide, by decide, ?_⟩
   norm_num [rollAxis, shiftIdx, upd]
 
+/-! ### C20, part 2: resolution consistency of a one-dimensional layer -/
+
+/-- every channel `c` of the input is the trigonometric polynomial
+    `Σ_{p ≤ B} a c p · cos(2π p t) + b c p · sin(2π p t)` sampled at the nodes `t = j/N` of the uniform grid -/
+noncomputable def sampled (a b : ℕ → ℕ → ℝ) (B N : ℕ) : Idx → ℕ → ℝ := fun j c => trigPoly (a c) (b c) B N (j 0)
+
+/-- On an input that is band-limited below the kept modes (`B < m`) and below the Nyquist frequency of the
+    grid (`2B < N`) a one-dimensional Fourier layer is the grid-independent Fourier multiplier plus the
+    point-wise connections. -/
+theorem layer_on_band_limited (N C B m : ℕ) (hB : 2 * B < N) (hm : B < m) (L : Layer ℝ) (hL : L.modes = [m])
+    (a b : ℕ → ℕ → ℝ) (n : Idx) (c : ℕ) :
+    layer [] N C L (sampled a b B N) n c =
+      (let y := multiplier (a c) (b c) B (fun k => L.kern (upd n 0 k) c) N (n 0)
+       let y := if L.lin then y + linear C L.W L.b (sampled a b B N n) c else y
+       if L.skip then y + sampled a b B N n c else y) := by
+  simp only [layer, hL]
+  have h0 : (fun j => sampled a b B N j c) = fun j => trigPoly (a c) (b c) B N (j 0) := rfl
+  rw [h0, spectral_trigPoly (a c) (b c) B N m hB hm]
+
+/-- **Resolution consistency.**  For a single one-dimensional Fourier layer (any channel count, kernel,
+    `m` kept modes, linear/skip connections on or off) and an input band-limited below the kept modes and
+    below the Nyquist frequency of the coarse grid: the output on the finer grid of `r·N` nodes coincides at
+    the shared nodes `r·n` with the output on the grid of `N` nodes. -/
+theorem layer_resolution_consistent (N r C B m : ℕ) (hr : 0 < r) (hB : 2 * B < N) (hm : B < m)
+    (L : Layer ℝ) (hL : L.modes = [m]) (a b : ℕ → ℕ → ℝ) (n : Idx) (c : ℕ) :
+    layer [] (r * N) C L (sampled a b B (r * N)) (upd n 0 (r * n 0)) c
+      = layer [] N C L (sampled a b B N) n c := by
+  have hB' : 2 * B < r * N := lt_of_lt_of_le hB (Nat.le_mul_of_pos_left N hr)
+  have hs : sampled a b B (r * N) (upd n 0 (r * n 0)) = sampled a b B N n := by
+    funext c'
+    simp only [sampled, upd_same, trigPoly_refine _ _ _ _ _ _ hr]
+  rw [layer_on_band_limited (r * N) C B m hB' hm L hL, layer_on_band_limited N C B m hB hm L hL]
+  simp only [hs, upd_same, upd_upd, multiplier_refine _ _ _ _ _ _ _ hr]
+
+/-- non-vacuity: coarse grid 4, fine grid 8, band 1, two kept modes -/
+example : (0 < 2) ∧ (2 * 1 < 4) ∧ (1 < 2) := by decide
+
 /-! ### C20, part 3: a layer never modifies its input tensor -/
 
 /-- Running `_FourierLayer.forward` as coded (fresh tensors for `rfftn`, `pad`, `irfftn`; the in-place `*=`, `+=`
